@@ -423,8 +423,18 @@ fn respawn(exes: &Exes, profile: &str) -> Worker {
     w
 }
 
+/// Worker deaths are expensive (respawn, re-run under stage tracing, for hangs a watchdog period each). A change
+/// that makes a whole class of inputs fatal would otherwise keep the run busy for hours: after this many deaths
+/// the remaining ranges are skipped (reported as not explored); the deaths seen so far are violations already.
+const DEATH_BUDGET: u64 = 40;
+static DEATHS: std::sync::atomic::AtomicU64 = std::sync::atomic::AtomicU64::new(0);
+
 fn process_range(sh: &Shared, pair: &mut Pair, lvl: &Level, fam: &Family, lo: u64, hi: u64, rep: &mut Report) {
     if lo >= hi {
+        return;
+    }
+    if DEATHS.load(std::sync::atomic::Ordering::Relaxed) >= DEATH_BUDGET {
+        rep.count("inputs_skipped_after_death_budget", hi - lo);
         return;
     }
     let cmd = run_cmd(lvl, lo, hi, "run");
@@ -494,6 +504,7 @@ fn process_range(sh: &Shared, pair: &mut Pair, lvl: &Level, fam: &Family, lo: u6
             let (key, msg, stage) = death_key(sh.exes, profile, &input, lvl.pretty, lvl.stack, lvl.dskip, how);
             sh.agg.lock().unwrap().add(&key, profile, 1, input.clone(), lvl, k, msg);
             rep.count("worker_deaths", 1);
+            DEATHS.fetch_add(1, std::sync::atomic::Ordering::Relaxed);
             match stage.as_deref().and_then(display_bit) {
                 Some(bit) if lvl.dskip & bit == 0 => bits |= bit,
                 _ => maskable = false,
@@ -1013,6 +1024,10 @@ fn main() {
         "alphabet_sizes": {"chars": families::CHARS.len(), "tokens_full": full, "tokens_core": core, "seeds": families::SEEDS.len(), "nest_templates": families::nest_template_names().len()},
         "oracle_traces_validated_against_spec_suite": 0,
     });
+    if let Some(n) = rep.counters.get("inputs_skipped_after_death_budget").copied() {
+        rep.level("skipped after the worker-death budget was used up", n, false);
+        rep.notes.push(format!("{DEATH_BUDGET} worker deaths reached: {n} inputs were not explored (the deaths are reported)"));
+    }
     let code = finish(&ctx, rep, &rule, &assumptions, extra);
     std::process::exit(code);
 }
